@@ -12,4 +12,7 @@ for feat in std nostd; do
     cargo build --profile $profile $flags --target-dir /verif/harness/target-digest-$feat
   done
 done
+# fuzz targets (libFuzzer + AddressSanitizer, nightly); used by C12 quick and by thorough tiers
+cd /verif/harness/rqv
+cargo +nightly fuzz build
 echo setup ok
